@@ -275,11 +275,19 @@ pub fn gen_graph(rng: &mut Rng, n: usize, decl_mode: DeclMode) -> GraphSpec {
         rng.shuffle(&mut perm);
     }
     let mut calls: Vec<EdgeCall> = Vec::new();
+    // swarm: all logic / all contains / mixed
+    let kind_mode = rng.below(10);
     for &(a, b) in &edges {
-        let kind = if rng.chance(2, 3) {
-            EdgeKind::Logic
-        } else {
-            EdgeKind::Contains
+        let kind = match kind_mode {
+            0..=2 => EdgeKind::Logic,
+            3 => EdgeKind::Contains,
+            _ => {
+                if rng.chance(2, 3) {
+                    EdgeKind::Logic
+                } else {
+                    EdgeKind::Contains
+                }
+            }
         };
         calls.push(EdgeCall {
             from: perm[a],
@@ -522,19 +530,25 @@ pub fn gen_run(rng: &mut Rng, n: usize, k: &RunKnobs) -> RunSpec {
         }
     }
 
-    // user-function behaviour profile
+    // user-function behaviour profile (swarm: some runs switch a behaviour off
+    // entirely - e.g. nothing ever completes on its own - or on for everything)
     let profile = if k.held_bias {
-        rng.weighted(&[70, 8, 8, 14])
+        rng.weighted(&[50, 8, 8, 14, 16, 4])
     } else {
-        rng.weighted(&[55, 15, 10, 20])
+        rng.weighted(&[40, 14, 9, 18, 13, 6])
     };
+    let odd_wakes = rng.chance(1, 2);
     let mut gates: Vec<GateSpec> = (0..n)
         .map(|_| {
             let (imm, yl) = match profile {
                 0 => (rng.chance(1, 12), if rng.chance(1, 12) { rng.range(1, 2) } else { 0 }),
                 1 => (rng.chance(5, 6), 0),
                 2 => (rng.chance(1, 3), if rng.chance(2, 3) { rng.range(1, 3) } else { 0 }),
-                _ => (rng.chance(1, 3), if rng.chance(1, 4) { rng.range(1, 2) } else { 0 }),
+                3 => (rng.chance(1, 3), if rng.chance(1, 4) { rng.range(1, 2) } else { 0 }),
+                // every user future waits for its release
+                4 => (false, 0),
+                // every user future is ready on its first poll
+                _ => (true, 0),
             };
             // heavy-tailed virtual duration
             let dur = match rng.below(8) {
@@ -546,8 +560,8 @@ pub fn gen_run(rng: &mut Rng, n: usize, k: &RunKnobs) -> RunSpec {
                 yields: yl as u8,
                 immediate: imm,
                 fail: false,
-                wake_twice: rng.chance(1, 16),
-                stale_wake: rng.chance(1, 16),
+                wake_twice: odd_wakes && rng.chance(1, 8),
+                stale_wake: odd_wakes && rng.chance(1, 8),
                 dur,
             }
         })
@@ -615,9 +629,10 @@ pub fn gen_run(rng: &mut Rng, n: usize, k: &RunKnobs) -> RunSpec {
 }
 
 pub fn gen_sched(rng: &mut Rng, rs: &RunSpec, prop: Prop) -> SchedParams {
-    let policy = match rng.below(10) {
-        0..=3 => Policy::PollEager,
-        4..=6 => Policy::PollLazy,
+    let policy = match rng.below(20) {
+        0..=7 => Policy::PollEager,
+        8..=12 => Policy::PollLazy,
+        13..=14 => Policy::ExternalFirst,
         _ => Policy::Uniform,
     };
     let order = match rng.below(10) {
